@@ -134,7 +134,9 @@ def value_level(rep, tier, seed):
     if len(reqs) < 500:
         raise tlcrun.MachineryError("FVAlgebra produced too few requests")
     episodes, probes_all = [], []
-    grids = range(len(GRIDS)) if tier == "thorough" else [seed % len(GRIDS), (seed + 3) % len(GRIDS)]
+    # quick: one grid of every dimension (the third component of a FaceVariable exists in 3D only)
+    d1, d2, d3 = [0], [1, 3, 4], [2, 5, 6]
+    grids = range(len(GRIDS)) if tier == "thorough" else [d1[0], d2[seed % 3], d3[seed % 3]]
     with warnings.catch_warnings(), np.errstate(all="ignore"), contextlib.redirect_stdout(io.StringIO()):
         warnings.simplefilter("ignore")
         for gi in grids:
